@@ -49,7 +49,7 @@ def run(ctx):
             raise Inconclusive("driver printed no summary")
         for key, v in re.findall(r"(\w+)=(\d+)", line[-1]):
             counts[key] = counts.get(key, 0) + int(v)
-    for need in ("prove", "transport", "z0", "z1", "z2", "mutate", "torsion", "torsionAccepted", "validate", "qualified"):
+    for need in ("retain", "concurrent", "boundary", "prove", "transport", "z0", "z1", "z2", "mutate", "torsion", "torsionAccepted", "validate", "qualified"):
         if counts.get(need, 0) == 0:
             raise Inconclusive("vacuity: no %s observations were produced" % need)
     if counts["validate"] == counts["qualified"]:
@@ -87,6 +87,9 @@ def run(ctx):
         "transitions": ref["generated"] + qn["generated"] + gen["generated"],
         "traces_validated_against_impl": len(merged),
         "events_validated": total,
+        "retained_proof_observations": counts["retain"],
+        "concurrent_prover_runs": counts["concurrent"],
+        "activation_height_observations": counts["boundary"],
         "proofs": counts["prove"],
         "proofs_by_leading_zero_bytes": {"0": counts["z0"], "1": counts["z1"], "2": counts["z2"]},
         "single_bit_mutations": counts["mutate"],
